@@ -1,4 +1,5 @@
 import PromModel.Prelude.Line
+import PromModel.Tsdb.ChunkXor2
 /-
   Suite `chunk2` (property C10): XOR2 float chunks (`tsdb/chunkenc/xor2.go`), with and without start
   timestamps, return exactly what was appended.
@@ -14,10 +15,62 @@ import PromModel.Prelude.Line
         `itreuse`               `chunk.Iterator(oldIterator)` (object reuse through `Reset`) → `ok`
         `next` / `seek <t>`     on that iterator                                             → `<t>:<v16hex>:<st>` | `none` | `err`
 
-  The judge below is the property statement evaluated on the implementation's observations only: it knows
-  nothing about the encoding.
+  `model` runs the transcription `PromModel/Tsdb/ChunkXor2.lean` (byte-exact tie: `bytes`, and every iterator
+  observation).  The judge below is the property statement evaluated on the implementation's observations
+  only: it knows nothing about the encoding.
 -/
 namespace Prom.Chunk2Suite
+open Prom.Bits
+
+/-! ### Model side -/
+
+structure S where
+  chunk : ChunkXor2.Chunk := ChunkXor2.Chunk.empty
+  it : Option ChunkXor2.Iter := none
+
+def showDec (d : ChunkXor2.Dec) : String := s!"{d.t}:{hexOfNat d.val 16}:{d.st}"
+
+def showIterRes (r : ChunkXor2.Iter × Bool) : String :=
+  if r.2 then showDec r.1.st else if r.1.err then "err" else "none"
+
+def stepModel (s : S) (line : String) : S × String :=
+  match toks line with
+  | ["new", "xor2"] => ({}, "ok")
+  | ["app", st, t, v] =>
+    match st.toInt?, t.toInt?, natOfHex? v with
+    | some st, some t, some v =>
+      match s.chunk.append st t v with
+      | .ok c => ({ s with chunk := c }, "ok")
+      | .error _ => (s, "panic")
+    | _, _, _ => (s, "bad-op")
+  | ["bytes"] => (s, hexOfByteList s.chunk.bytes)
+  | ["n"] => (s, toString s.chunk.num)
+  | ["iter"] =>
+    let r := ChunkXor2.decodeChunk s.chunk.bytes
+    let l := if r.1.isEmpty then "-" else ",".intercalate (r.1.map fun x => s!"{x.2.1}:{hexOfNat x.2.2 16}:{x.1}")
+    (s, s!"{if r.2 then "ok" else "err"} n={r.1.length} {l}")
+  | ["reopen"] | ["reopenpool"] =>
+    match ChunkXor2.reopen s.chunk.bytes with
+    | some c => ({ s with chunk := c }, "ok")
+    | none => (s, "err")
+  | ["it"] | ["itreuse"] => ({ s with it := some (ChunkXor2.iterNew s.chunk.bytes) }, "ok")
+  | ["next"] =>
+    match s.it with
+    | none => (s, "bad-op")
+    | some it => let r := ChunkXor2.iterNext it; ({ s with it := some r.1 }, showIterRes r)
+  | ["seek", t] =>
+    match s.it, t.toInt? with
+    | some it, some t => let r := ChunkXor2.iterSeek it t; ({ s with it := some r.1 }, showIterRes r)
+    | _, _ => (s, "bad-op")
+  | _ => (s, "bad-op")
+
+def model (ops : List String) : List String :=
+  let rec go (st : S) : List String → List String
+    | [] => []
+    | l :: rest => let (st', o) := stepModel st l; o :: go st' rest
+  go {} ops
+
+/-! ### Judge side -/
 
 /-- (timestamp, value bits, start timestamp) -/
 abbrev Sample3 := Int × Nat × Int
@@ -174,6 +227,6 @@ def judgeObs (ops _outs : List String) : String := judgePairs (ops.map splitObs)
 /-- Differential form: op lines and the implementation's output lines. -/
 def judge (ops outs : List String) : String := judgePairs (ops.zip outs)
 
-def suite : Suite := { name := "chunk2", model := fun ops => ops.map fun _ => "-", judge := judgeObs }
+def suite : Suite := { name := "chunk2", model := model, judge := judge }
 
 end Prom.Chunk2Suite
